@@ -639,7 +639,7 @@ func (e *Engine) smtFile(vc *VC, o *Obligation, withModel bool) string {
 	// reference sorts declared by the VC (Slice, ...), so they follow the built-in sorts.
 	nBuiltin := 0
 	for i, d := range vc.decls {
-		if strings.HasPrefix(d, "(declare-datatypes ((Slice") || strings.HasPrefix(d, "(declare-datatypes ((Iface") || strings.HasPrefix(d, "(declare-sort Str") || strings.HasPrefix(d, "(declare-sort Float") || strings.HasPrefix(d, "(declare-fun str.") {
+		if strings.HasPrefix(d, "(declare-datatypes ((Slice") || strings.HasPrefix(d, "(declare-datatypes ((Iface") || strings.HasPrefix(d, "(declare-sort Str") || strings.HasPrefix(d, "(declare-sort Float") || strings.HasPrefix(d, "(declare-sort BSeq") || strings.HasPrefix(d, "(declare-fun str.") {
 			nBuiltin = i + 1
 		} else {
 			break
